@@ -671,7 +671,42 @@ func weaken(t *rapid.T, v spec.V, allowDyn, dynPos bool, kinds *[]string, prob i
 	for i, e := range v.Elems {
 		out.Elems[i] = weaken(t, e, allowDyn, childDyn, kinds, prob+1)
 	}
+	// The members of a collection may hold DynamicVal after all when they are
+	// tuples / objects and EVERY member holds it at the same position: the
+	// members then still share one type (with a placeholder in it).
+	if allowDyn && dynPos && v.T.IsColl() && uniformStructs(out.Elems) && rapid.IntRange(0, 7).Draw(t, "dynhole") == 4 {
+		k := rapid.IntRange(0, len(out.Elems[0].Elems)-1).Draw(t, "dynholeat")
+		for i := range out.Elems {
+			m := out.Elems[i]
+			m.Elems = append([]spec.V(nil), m.Elems...)
+			d := spec.DynamicVal()
+			d.Marks = m.Elems[k].Marks
+			m.Elems[k] = d
+			out.Elems[i] = m
+		}
+		*kinds = append(*kinds, "dynamic-in-collection-member")
+	}
 	return out
+}
+
+// uniformStructs: every member is a known, unmarked tuple or object with at
+// least one member, all of the same length (and, for objects, the same names).
+func uniformStructs(ms []spec.V) bool {
+	if len(ms) == 0 {
+		return false
+	}
+	for _, m := range ms {
+		if m.St != spec.Known || len(m.Marks) > 0 || (m.T.K != spec.KTuple && m.T.K != spec.KObject) || len(m.Elems) == 0 ||
+			m.T.K != ms[0].T.K || len(m.Elems) != len(ms[0].Elems) {
+			return false
+		}
+		for i := range m.Keys {
+			if m.Keys[i] != ms[0].Keys[i] {
+				return false
+			}
+		}
+	}
+	return true
 }
 
 // abstractOf draws an unknown value that admits the wholly-known value v.
